@@ -364,3 +364,50 @@ Proof.
   - apply float_interval_is_preimage; [lia|lia|lia|vm_compute; discriminate|exact C91|].
     exists 1. split; [vm_compute; split; [discriminate|reflexivity]|vm_compute; reflexivity].
 Qed.
+
+(** ** what the specification of simplest_from_float means: THE simplest canonical fraction among
+    those that round to the float *)
+Lemma interval_table_pos : forall md neg pw B m, 2 <= B ->
+  0 <= fst (fst (fst (interval_table md neg pw B m))) /\ 0 <= snd (fst (fst (interval_table md neg pw B m))) /\
+  0 < fst (fst (fst (interval_table md neg pw B m))) + snd (fst (fst (interval_table md neg pw B m))).
+Proof.
+  intros md neg pw B m HB. assert (HU : 2 * B / 2 = B) by (rewrite Z.mul_comm; apply Z.div_mul; lia).
+  unfold interval_table. destruct md, neg, pw; cbn [fst snd]; rewrite ?HU; change (2 / 2) with 1; lia.
+Qed.
+
+Lemma scaledB_lt : forall B t Y1 Y2 d0, 0 < B -> 0 < d0 -> Y1 < Y2 -> fval_lt (scaled B Y1 t d0) (scaled B Y2 t d0).
+Proof.
+  intros B t Y1 Y2 d0 HB Hd H.
+  apply (uval_lt B t HB _ _ Y1 d0 Y2 d0); try lia; try (apply scaled_pos; lia); try (apply uval_scaled; lia). nia.
+Qed.
+
+Lemma float_interval_spec_wf : forall B md p sig ex, 2 <= B -> 1 <= p ->
+  canon (fst (fst (fst (float_interval_spec B md p sig ex)))) /\
+  canon (snd (fst (fst (float_interval_spec B md p sig ex)))) /\
+  fval_lt (fst (fst (fst (float_interval_spec B md p sig ex)))) (snd (fst (fst (float_interval_spec B md p sig ex)))).
+Proof.
+  intros B md p sig ex HB Hp. rewrite float_interval_spec_table by (apply Z.eqb_neq; lia). cbv zeta.
+  set (m := Z.abs sig * B ^ (p - ndigits B (Z.abs sig))). set (t := ex + ndigits B (Z.abs sig) - p - 1).
+  pose proof (interval_table_pos md (sig <? 0) (m =? B ^ (p - 1)) B m HB) as (H1 & H2 & H3).
+  destruct (interval_table md (sig <? 0) (m =? B ^ (p - 1)) B m) as [[[bl ab] itz] iaw]. cbn [fst snd] in H1, H2, H3.
+  destruct (sig <? 0); cbn [fst snd].
+  - rewrite !fneg_scaled by lia. repeat split; try (apply scaled_canon; lia). apply scaledB_lt; lia.
+  - repeat split; try (apply scaled_canon; lia). apply scaledB_lt; lia.
+Qed.
+
+Theorem simplest_from_float_spec_meaning : forall B md p sig ex,
+  2 <= B -> 1 <= p -> sig <> 0 -> ndigits B (Z.abs sig) <= p ->
+  exists r, simplest_from_float_spec B md p sig ex = Ok (Some r) /\ canon r /\
+    rounds_to B md p r (scaled B sig ex 1) /\
+    forall s, canon s -> rounds_to B md p s (scaled B sig ex 1) -> s <> r -> simpler r s = true.
+Proof.
+  intros B md p sig ex HB Hp Hs Hdg.
+  pose proof (float_interval_spec_wf B md p sig ex HB Hp) as (Clo & Chi & Hlt).
+  pose proof (fun x Cx => float_interval_is_preimage B md p sig ex x HB Hp Hs Hdg Cx) as Pre.
+  unfold simplest_from_float_spec. rewrite (proj2 (Z.eqb_neq sig 0) Hs).
+  destruct (float_interval_spec B md p sig ex) as [[[lo hi] ilo] ihi]. cbn [fst snd] in Clo, Chi, Hlt.
+  destruct (simplest_closed_correct lo hi ilo ihi Clo Chi Hlt) as (r & Er & Mr & Opt).
+  exists r. rewrite Er. assert (Cr : canon r) by (cbn [member] in Mr; exact (proj1 Mr)).
+  split; [reflexivity|]. split; [exact Cr|]. split; [apply Pre; assumption|].
+  intros s Cs Rs Hne. apply Opt; [apply Pre; assumption|exact Hne].
+Qed.
